@@ -1,0 +1,26 @@
+//go:build verif
+
+// Contracts for the lexer, checked by /verif/govc (build tag verif only).
+// Proved here: byte fidelity of char, index safety and progress facts of
+// Tokenize, CRLF normalisation, "unterminated string" only at the end of the
+// input.  The functional longest-match specification of Tokenize is NOT proved
+// (it needs a model of Go's regexp semantics); see /verif/DESIGN.md, C11.
+
+package lexer
+
+//@ func char
+//@   requires[C13] non-negative-position: position >= 0
+//@   ensures[C08,C11] the-byte-itself: (position < len(s) ==> result == s[position:position+1]) && (position >= len(s) ==> result == "")
+//
+//@ func newToken
+//@   ensures[C11] fields: result.value == value && result.tokenType == tokenType && result.row == row && result.column == column
+//
+//@ func Tokenize
+//@   loop 1 invariant[C11,C12,C13] index-within-normalised-source: 0 <= i && i <= len(strings.ReplaceAll(source, "\r\n", "\n"))
+//@   loop 1 invariant[C11,C12] no-blank-or-comment-token: forall(k, 0, len(tokens), tokens[k].tokenType != SPACE && tokens[k].tokenType != COMMENT && tokens[k].tokenType != UNKNOWN)
+//@   loop 1 invariant[C11] rows-start-at-one: row >= 1
+//@   loop 2 invariant[C11,C13] index-within-normalised-source: 0 <= i && i <= len(strings.ReplaceAll(source, "\r\n", "\n"))
+//@   loop 2 exit[C11] scanner-gives-up-only-at-end-of-input: i >= len(strings.ReplaceAll(source, "\r\n", "\n"))
+//@   loop 3 invariant[C11,C13] index-within-normalised-source: 0 <= i && i <= len(strings.ReplaceAll(source, "\r\n", "\n"))
+//@   ensures[C11,C13] always-ends-with-eof: err == nil ==> len(result0) >= 1 && result0[len(result0) - 1].tokenType == EOF && result0[len(result0) - 1].value == ""
+//@   ensures[C11,C12] no-blank-or-comment-token: forall(k, 0, len(result0) - 1, result0[k].tokenType != SPACE && result0[k].tokenType != COMMENT && result0[k].tokenType != UNKNOWN)
